@@ -323,6 +323,25 @@ class TupleParser:
 
         return result
 
+    def check_paramvalue_names(self, tup_tree, reserved):
+        """
+        Reject PARAMVALUE child elements that are named like one of the
+        other child elements of a response element.
+
+        The parsed child nodes are identified by their first item, which is
+        the element name (e.g. 'IRETURNVALUE') or the parameter name of a
+        PARAMVALUE element, so such a parameter could not be told apart from
+        the element.
+        """
+        for child in kids(tup_tree):
+            if name(child) == 'PARAMVALUE' and \
+                    attrs(child).get('NAME') in reserved:
+                raise CIMXMLParseError(
+                    _format("Element {0!A} has a PARAMVALUE child element "
+                            "with invalid name {1!A}",
+                            name(tup_tree), attrs(child)['NAME']),
+                    conn_id=self.conn_id)
+
     def list_of_matching(self, tup_tree, matched):
         """
         Parse only the children of particular types defined in the list/tuple
@@ -2000,6 +2019,7 @@ class TupleParser:
         # any combination, any order).
 
         self.check_node(tup_tree, 'METHODRESPONSE', ('NAME',))
+        self.check_paramvalue_names(tup_tree, ('ERROR', 'RETURNVALUE'))
 
         return (name(tup_tree),
                 attrs(tup_tree),
@@ -2038,6 +2058,7 @@ class TupleParser:
         """
 
         self.check_node(tup_tree, 'IMETHODRESPONSE', ('NAME',))
+        self.check_paramvalue_names(tup_tree, ('ERROR', 'IRETURNVALUE'))
 
         return (name(tup_tree), attrs(tup_tree),
                 self.list_of_various(tup_tree,
